@@ -60,8 +60,10 @@ RangeOpts(s, m, both) ==
            ELSE {})
 MkRange(o, s, a4, m, sm) == [kind |-> "range", fn |-> o.fn, st |-> o.st, sr |-> o.sr, size |-> o.size, s |-> s, a4 |-> a4, m |-> m, sm |-> sm]
 \* the "both" variants for the first start only; the stop formed as start + (m/4)*step ("fma") only for the plain call
-RangeCasesOK == UNION {{MkRange(o, s, a4, m, "near") : o \in RangeOpts(s, m, a4 = StartList[1])}
-                       \cup {MkRange(Opt("range", TRUE, <<>>, <<>>), s, a4, m, "fma")} : s \in Units, a4 \in Starts, m \in 1..MaxM}
+\* (existential quantifiers in Init rather than a UNION of sets: TLC enumerates them without building and normalising the set)
+InitRange == \E s \in Units, a4 \in Starts, m \in 1..MaxM :
+                \/ \E o \in RangeOpts(s, m, a4 = StartList[1]) : c = MkRange(o, s, a4, m, "near")
+                \/ c = MkRange(Opt("range", TRUE, <<>>, <<>>), s, a4, m, "fma")
 
 Positions(n) == {Tk * k : k \in 0..(n - 1)} \cup {Tk * k + 1 : k \in 0..(n - 1)} \cup {Tk * k - 1 : k \in 0..(n - 1)}
                 \cup {Tk * k + 4 : k \in 0..(n - 2)} \cup {-4, Tk * (n - 1) + 4}
@@ -78,13 +80,12 @@ IntAxis(x)    == x.dt \in {"i8", "i4"}
 Lat(ir, k) == IF ir = 0 THEN k ELSE IF ir = 1 THEN (k * (k + 1)) \div 2 ELSE k + k \div 2
 Matching  == <<<<1, 1>>>>
 AxisVars  == {<<sa, 0>> : sa \in {<<>>, <<<<1, 2>>>>, <<<<1, 3>>>>, <<<<2, 1>>>>}} \cup {<<sa, ir>> : sa \in {<<>>, Matching}, ir \in {1, 2}}
-IndexCases == UNION {{[kind |-> "index", s |-> u, a4 |-> a4, dt |-> dt, n |-> n, p |-> p, re |-> re, sa |-> Matching, ir |-> 0] :
-                         dt \in Dtypes(u, a4), p \in Positions(n), re \in BOOLEAN} : u \in Units, a4 \in Starts, n \in 1..MaxN}
-              \cup
-              \* attributes that disagree with the coordinates: a sub-universe (first two units, first start, raise mode)
-              UNION {{[kind |-> "index", s |-> UnitList[u], a4 |-> StartList[1], dt |-> dt, n |-> n, p |-> p, re |-> TRUE, sa |-> v[1], ir |-> v[2]] :
-                         dt \in Dtypes(UnitList[u], StartList[1]) \cap {"f8", "i8"}, p \in Positions(n), v \in AxisVars} : u \in 1..2, n \in 2..MaxN}
-IndexCasesOK == {x \in IndexCases : x.p \in Positions(x.n) /\ x.dt \in Dtypes(x.s, x.a4)}
+MkIndex(u, a4, dt, n, p, re, sa, ir) == [kind |-> "index", s |-> u, a4 |-> a4, dt |-> dt, n |-> n, p |-> p, re |-> re, sa |-> sa, ir |-> ir]
+InitIndex == \/ \E u \in Units, a4 \in Starts, n \in 1..MaxN : \E dt \in Dtypes(u, a4), p \in Positions(n), re \in BOOLEAN :
+                   c = MkIndex(u, a4, dt, n, p, re, Matching, 0)
+             \* attributes that disagree with the coordinates: a sub-universe (first two units, first start, raise mode)
+             \/ \E u \in 1..2, n \in 2..MaxN : \E dt \in Dtypes(UnitList[u], StartList[1]) \cap {"f8", "i8"}, p \in Positions(n), v \in AxisVars :
+                   c = MkIndex(UnitList[u], StartList[1], dt, n, p, TRUE, v[1], v[2])
 
 SetPositions(n) == {Tk * k : k \in 0..(n - 1)} \cup {Tk * k + 4 : k \in 0..(n - 2)} \cup {-4, Tk * (n - 1) + 4}
 Shapes == UNION {IF d = 1 THEN {<<x>> : x \in 1..MaxSize}
@@ -130,8 +131,8 @@ SetCasesFor(s, sh, dt) ==
         \cup {x \in {Rec(q, vm, <<IdP(d), IdP(d)>>, <<>>, v) : q \in Queries(sh), vm \in {"scalar", "array"}, v \in avs} : SetCaseOK(x)}
 R0 == [es |-> <<0, 1>>, len |-> 0, k |-> "none", v |-> -1, ix |-> <<>>, hit |-> TRUE, after |-> <<>>]
 Init == /\ pc = "start" /\ i = 0
-        /\ \/ c \in RangeCasesOK
-           \/ c \in IndexCasesOK
+        /\ \/ InitRange
+           \/ InitIndex
            \/ \E s \in SetUnits, sh \in Shapes, dt \in {"f8", "i8", "i4"} : c \in SetCasesFor(s, sh, dt)
         /\ r = IF c.kind = "set" THEN [R0 EXCEPT !.ix = [k \in 1..Len(c.sh) |-> <<>>]] ELSE R0
 
